@@ -361,7 +361,90 @@ func (fc *FnCtx) evalIdent(x *ast.Ident, env *Env) Val {
 			}
 		}
 	}
+	if v, ok := fc.counterAlias(x.Name, env); ok {
+		return v
+	}
 	panic(specErr("unknown identifier in spec: " + x.Name))
+}
+
+// counterAlias: a loop's counter went from a named variable to the hidden index of a range
+// loop or back (`for i := 0; i < n; i++` <-> `for range n` / `for i := range s` <-> the
+// hidden rangeindex). When the loop has exactly one integer header phi that starts at 0 or
+// -1 and steps by one, a counter name that no longer resolves denotes that phi, shifted so
+// that it still counts the completed iterations. As with renamed locals this is only a
+// guess about what the contract means: every obligation is still checked against the code.
+func (fc *FnCtx) counterAlias(name string, env *Env) (Val, bool) {
+	li := env.loop
+	if li == nil || env.lookup == nil {
+		return Val{}, false
+	}
+	if name != "rangeindex" {
+		loadLocals()
+		rec := localsOnDisk[fc.eng.shortFn(fc.root().fn)][name]
+		want, role, _ := strings.Cut(rec, " @")
+		if role != fmt.Sprintf("phi:loop%d", li.index) || (want != "int" && want != "int64" && want != "uint32" && want != "uint64" && want != "int32") {
+			return Val{}, false
+		}
+	}
+	var cnt *ssa.Phi
+	start := int64(0)
+	for _, in := range li.header.Instrs {
+		phi, ok := in.(*ssa.Phi)
+		if !ok {
+			break
+		}
+		if _, isInt := phi.Type().Underlying().(*types.Basic); !isInt {
+			continue
+		}
+		init, steps, good := int64(0), 0, true
+		for i, e := range phi.Edges {
+			if !li.body[phi.Block().Preds[i]] {
+				c, isC := e.(*ssa.Const)
+				if !isC || c.Value == nil {
+					good = false
+					break
+				}
+				init = c.Int64()
+				continue
+			}
+			b, isB := e.(*ssa.BinOp)
+			one, isC := ssa.Value(nil), false
+			if isB {
+				one = b.Y
+				_, isC = one.(*ssa.Const)
+			}
+			if !isB || b.Op != token.ADD || b.X != ssa.Value(phi) || !isC || one.(*ssa.Const).Value == nil || one.(*ssa.Const).Int64() != 1 {
+				good = false
+				break
+			}
+			steps++
+		}
+		if !good || steps == 0 || (init != 0 && init != -1) {
+			continue
+		}
+		if cnt != nil {
+			return Val{}, false // more than one counter: no guess
+		}
+		cnt, start = phi, init
+	}
+	if cnt == nil || cnt.Comment == name {
+		return Val{}, false
+	}
+	v, ok := env.lookup(cnt.Comment)
+	if !ok || v.K != KInt {
+		return Val{}, false
+	}
+	// the value the missing name would have: rangeindex runs from -1, everything else from 0
+	wantStart := int64(0)
+	if name == "rangeindex" {
+		wantStart = -1
+	}
+	d := wantStart - start
+	fc.note("counter %q no longer exists in %s; read as %s%+d", name, fc.eng.shortFn(fc.root().fn), cnt.Comment, d)
+	if d == 0 {
+		return v, true
+	}
+	return intV(app("+", v.S, itoa(d)), v.T), true
 }
 
 // idxTerm: the SMT term used when a spec value indexes a ghost array.
